@@ -188,8 +188,13 @@ func (d *clDriver) absorb(ev clEvent) {
 	}
 }
 
+// safety net only; after a first stuck case the remaining ones are not given as long, and after a few
+// the rest of the run is answered "!stuck skipped"
+var clDeadline = 10 * time.Second
+var clStuck = 0
+
 func (d *clDriver) wait(cond func() bool) bool {
-	timer := time.NewTimer(10 * time.Second)
+	timer := time.NewTimer(clDeadline)
 	defer timer.Stop()
 	for !cond() {
 		select {
@@ -203,6 +208,8 @@ func (d *clDriver) wait(cond func() bool) bool {
 			d.atRet = [2]int{len(d.env.sides[0].in), len(d.env.sides[1].in)}
 			d.env.mu.Unlock()
 		case <-timer.C:
+			clDeadline = 2 * time.Second
+			clStuck++
 			return false
 		}
 	}
@@ -220,10 +227,12 @@ func (d *clDriver) afterExit(k int) bool {
 
 func (d *clDriver) afterOp(k int, exit bool) bool {
 	if !exit {
-		if !d.wait(func() bool { return d.pend[k] != nil || d.exited[k] }) {
+		// the copier's next call; (code that leaves the loop here instead shows up as copyLoop moving on)
+		was := d.mainSeen
+		if !d.wait(func() bool { return d.pend[k] != nil || d.exited[k] || (!was && d.mainSeen) }) {
 			return false
 		}
-		exit = d.exited[k]
+		exit = d.exited[k] || d.pend[k] == nil
 	}
 	if exit {
 		return d.afterExit(k)
@@ -425,6 +434,9 @@ func verifCopyloopRun(args []string) string {
 	w1, ok3 := clParseWrites(args[4])
 	if !(ok0 && ok1 && ok2 && ok3) {
 		return "!badcase"
+	}
+	if clStuck >= 8 {
+		return "!stuck skipped: earlier cases of this run got stuck"
 	}
 	sched := args[5]
 	if sched == "-" {
